@@ -78,6 +78,7 @@ Proof.
     destruct (fl_get (flood s) metric) as [[t cnt]|];
     repeat match goal with |- context [if ?x then _ else _] => destruct x end; simpl; auto using map_by_key_app_some.
   - unfold reset. destruct (limit <=? 0); simpl; auto.
+  - destruct f; simpl; auto. destruct (fst (fst (goc c s metric key now))); simpl; auto.
 Qed.
 
 (* AUTOINCREMENT high-water mark never decreases *)
@@ -94,6 +95,7 @@ Proof.
   - generalize (mseq s). induction kvs as [|kv t IH]; simpl; intros q; [lia|]. specialize (IH (Z.max q (snd kv))). lia.
   - unfold del. destruct (filter _ (maps s)); simpl; lia.
   - unfold reset. destruct (limit <=? 0); simpl; lia.
+  - destruct f; simpl; try lia. destruct (fst (fst (goc c s metric key now))); simpl; lia.
 Qed.
 Lemma mseq_monotone_run v c ops : forall s, mseq s <= mseq (run v c s ops).
 Proof. unfold run. induction ops; simpl; intros; [lia|]. pose proof (mseq_monotone v c s a). specialize (IHops (step_st v c s a)). lia. Qed.
